@@ -1,5 +1,76 @@
-import VelaVerif.Model.Cascade
-import VelaVerif.Spec.Receptive
+import VelaVerif.Lemmas.Box
+import VelaVerif.Lemmas.Stripes
 namespace VelaVerif.Props.C10
-theorem placeholder : True := trivial
+open VelaVerif.Box VelaVerif.Receptive VelaVerif.Stripes
+
+theorem stripe_receptive (k s d top skB H y0 y1 w0 : Int)
+    (hk : 1 ≤ k) (hs : 1 ≤ s) (hd : 1 ≤ d) (hH : 1 ≤ H)
+    (h0 : 0 ≤ y0 - w0) (h01 : y0 < y1) (h1 : y1 - w0 ≤ H)
+    (hT : 0 ≤ top) (hsk : dilated k d - s ≤ top + skB) :
+    let r := transformH y0 y1 w0 none (some (s, top, skB)) H 1 (dilated k d)
+    let o : Op := { k := k, s := s, d := d, top := top, H := H, off := 0, up := 1, mode := .none }
+    let st : Stripe := { y0 := y0 - w0, h := y1 - y0, a := r.a, b := r.b, pt := r.pt, pb := r.pb }
+    Equations o st ∧ Receptive o st ∧ BoxCovers o st := by
+  intro r o st
+  obtain ⟨ha, hpt, hpb, hb, he⟩ := transformH_up1 y0 y1 w0 s top skB H (dilated k d) hs h0 h01 h1 hT hsk
+  have e1 : (y0 - w0 + (y1 - y0)) * s = (y1 - w0) * s := by ring
+  have e2 : (y1 - y0 - 1) * s = (y1 - w0) * s - (y0 - w0) * s - s := by ring
+  have hge : (y0 - w0) * s + s ≤ (y1 - w0) * s := by
+    have : (y0 - w0 + 1) * s ≤ (y1 - w0) * s := Int.mul_le_mul_of_nonneg_right (by omega) (by omega)
+    have e3 : (y0 - w0 + 1) * s = (y0 - w0) * s + s := by ring
+    omega
+  have heq : Equations o st := by
+    simp only [Equations, o, st, implicitExtent, e1, e2]
+    rw [show r.a = _ from ha, show r.pt = _ from hpt, show r.pb = _ from hpb]
+    generalize (y0 - w0) * s = Y0 at *
+    generalize (y1 - w0) * s = Y1 at *
+    omega
+  refine ⟨heq, receptive_of_equations o st rfl rfl (by simp only [o]; omega) (by simp only [o]; omega) ?_ heq,
+    covers_of_equations o st rfl (by simp only [o]; omega) (by simp only [o]; omega) heq ?_⟩
+  · show (0 : Int) ≤ r.a
+    rw [show r.a = _ from ha]; omega
+  · show (0 : Int) + min ((y0 - w0 + (y1 - y0)) * s - s - top + dilated k d) H ≤ r.b
+    rw [e1, show r.b = _ from hb]
+    generalize (y1 - w0) * s = Y1 at *
+    omega
+
+
+theorem stripes_partition (sN sH sW sC eN eH eW eC stepH stepW : Nat) (slices : List Nat) (boxes : List OBox)
+    (hok : ofmBoxes sN sH sW sC eN eH eW eC stepH stepW slices = .ok boxes)
+    (hsorted : slices.Pairwise (· ≤ ·))
+    (hhead : ∀ a ∈ slices.head?, a ≤ sC) (hlast : ∃ x ∈ slices, eC ≤ x) :
+    Partition (boxes.map toBox3) ⟨sH, eH, sW, eW, sC, eC⟩ := by
+  unfold ofmBoxes at hok
+  split at hok
+  · cases hok
+  · rename_i hstep
+    simp only at hok
+    split at hok
+    · injection hok with hok
+      subst hok
+      constructor
+      · intro y x c hc
+        simp only [Box3.contains, Bool.and_eq_true, decide_eq_true_eq] at hc
+        obtain ⟨⟨⟨⟨⟨h1, h2⟩, h3⟩, h4⟩, h5⟩, h6⟩ := hc
+        rw [count3]
+        have a1 := axis_count sH eH stepH y (by omega) h1 h2
+        have a2 := axis_count sW eW stepW x (by omega) h3 h4
+        have a3 := depth_count sC eC c h5 h6 slices hsorted
+          (fun a ha => Nat.le_trans (hhead a ha) h5)
+          (by obtain ⟨z, hz, hez⟩ := hlast; exact ⟨z, hz, by omega⟩)
+        have a1' : (axisIntervals sH eH stepH).countP (inIv y) = 1 := a1
+        have a2' : (axisIntervals sW eW stepW).countP (inIv x) = 1 := a2
+        rw [a1', a2', a3]
+      · intro b hb
+        right
+        simp only [List.mem_map, List.mem_flatMap] at hb
+        obtain ⟨ob, ⟨hh, hhm, ww, wwm, cc, ccm, rfl⟩, rfl⟩ := hb
+        have b1 := axis_within _ _ _ _ hhm
+        have b2 := axis_within _ _ _ _ wwm
+        have b3 := depth_within _ _ _ _ ccm
+        simp only [Box3.within, toBox3, Bool.and_eq_true, decide_eq_true_eq]
+        exact ⟨⟨⟨⟨⟨decide_eq_true b1.1, decide_eq_true b1.2⟩, decide_eq_true b2.1⟩, decide_eq_true b2.2⟩,
+          decide_eq_true b3.1⟩, decide_eq_true b3.2⟩
+    · cases hok
+
 end VelaVerif.Props.C10
